@@ -6,10 +6,12 @@
   (b) grammar precedence/associativity = the manual's table — over Gen.Precedence, REGENERATED
   (c) algebra of the specification `Cond.eval`, for all environments
   (d) compile_correct: code emitted by the grammar actions, run on the VM model, computes `eval` (fragments)
+  (e) the string operators: sizedstr.c (Gen.SizedStr, REGENERATED) = the byte-list specification, for all byte lists
 -/
 import YaraModel.Gen.Precedence
 import YaraModel.Lemmas.Cond
 import YaraModel.Lemmas.CondExecAll
+import YaraModel.Lemmas.SizedStr
 namespace YaraModel.Cond
 open YaraModel YaraModel.C YaraModel.CondVm YaraModel.CondCompile YaraModel.Gen.VmOps YaraModel.Gen.Precedence
 
@@ -258,6 +260,97 @@ theorem reader_model_is_spec (blocks : List (Nat × Bytes)) (off n : Nat)
 example : readBytes [(0, [1, 2, 3]), (3, [4, 5])] 2 2 = none ∧ readBytes [(0, [1, 2, 3]), (3, [4, 5])] 3 2 = some [4, 5] := by
   decide
 
+
+/-! ## (e) the string operators: sizedstr.c as regenerated = the specification over byte lists -/
+
+open YaraModel.Gen.SizedStr in
+/-- every comparison function of sizedstr.c is inside the translated fragment (a rewrite with strncmp / strstr / a changed
+    loop shape leaves it, and this fails) -/
+theorem sizedstr_translated : YaraModel.Gen.SizedStr.unparsed = [] := rfl
+
+open YaraModel.Gen.SizedStr in
+/-- `contains icontains startswith istartswith endswith iendswith iequals == !=` — for ALL byte lists, including embedded
+    NUL bytes, bytes >= 0x80, empty operands and needles longer than the haystack: the C functions exec.c calls
+    (OP_CONTAINS .. OP_IEQUALS, OP_STR_EQ, OP_STR_NEQ) compute the specification's `strOp` / `cmpStr` -/
+theorem string_ops_model_is_spec (a b : Bytes) :
+    ss_contains a b = strOp .contains a b ∧ ss_icontains a b = strOp .icontains a b ∧
+    ss_startswith a b = strOp .startswith a b ∧ ss_istartswith a b = strOp .istartswith a b ∧
+    ss_endswith a b = strOp .endswith a b ∧ ss_iendswith a b = strOp .iendswith a b ∧
+    decide (ss_icompare a b = 0) = strOp .iequals a b ∧
+    decide (ss_compare a b = 0) = cmpStr .eq a b ∧ decide (ss_compare a b ≠ 0) = cmpStr .neq a b := by
+  have hi : ss_icompare a b = 0 ↔ lowerS a = lowerS b := by
+    rw [SizedStr.ss_icompare_eq]
+    exact SizedStr.cmpWith_zero _ _ lower (fun x y => by simp) a b
+  have hc : ss_compare a b = 0 ↔ a = b := by
+    rw [SizedStr.ss_compare_eq]
+    have := SizedStr.cmpWith_zero (fun x y => x == y) (fun x y => decide (SizedStr.scB x < SizedStr.scB y)) id (fun x y => by simp) a b
+    simpa using this
+  have hs : strCompare a b = 0 ↔ a = b := by
+    rw [SizedStr.strCompare_eq_cmpWith]
+    have := SizedStr.cmpWith_zero (fun x y => x == y) (fun x y => decide (x < y)) id (fun x y => by simp) a b
+    simpa using this
+  refine ⟨SizedStr.ss_contains_eq a b, SizedStr.ss_icontains_eq a b, SizedStr.ss_startswith_eq a b, SizedStr.ss_istartswith_eq a b,
+    SizedStr.ss_endswith_eq a b, SizedStr.ss_iendswith_eq a b, ?_, ?_, ?_⟩
+  · simp only [strOp, hi]
+    by_cases h : lowerS a = lowerS b <;> simp [h]
+  · simp only [cmpStr, cmpInt]
+    rw [Bool.eq_iff_iff]
+    simp only [decide_eq_true_eq, beq_iff_eq]
+    rw [hc, hs]
+  · simp only [cmpStr, cmpInt]
+    rw [Bool.eq_iff_iff]
+    simp only [decide_eq_true_eq, bne_iff_ne, ne_eq]
+    rw [hc, hs]
+
+open YaraModel.Gen.SizedStr in
+/-- `< <= > >=` on strings: ss_compare orders by C `char`, which is SIGNED on the reference platform; it is the
+    specification's (unsigned, memcmp-like) order when all bytes are below 0x80.  Finding F57: beyond that it is not. -/
+theorem string_order_model_is_spec_partial (a b : Bytes) (ha : ∀ x, x ∈ a → x < 128) (hb : ∀ x, x ∈ b → x < 128) :
+    ss_compare a b = strCompare a b := by
+  rw [SizedStr.ss_compare_eq, SizedStr.strCompare_eq_cmpWith]
+  apply SizedStr.cmpWith_congr
+  intro x hx y hy
+  have h1 := ha x hx
+  have h2 := hb y hy
+  rw [UInt8.lt_iff_toNat_lt] at h1 h2
+  have e1 : SizedStr.scB x = (x.toNat : Int) := by unfold SizedStr.scB; split <;> simp at * <;> omega
+  have e2 : SizedStr.scB y = (y.toNat : Int) := by unfold SizedStr.scB; split <;> simp at * <;> omega
+  rw [e1, e2]
+  apply decide_eq_decide.mpr
+  rw [UInt8.lt_iff_toNat_lt]
+  omega
+
+open YaraModel.Gen.SizedStr in
+/-- F57 witness: "\xff" < "a" for ss_compare, "\xff" > "a" for the specification -/
+theorem string_order_signed_witness :
+    ss_compare [0xff] [0x61] = -1 ∧ strCompare [0xff] [0x61] = 1 := by decide
+
+
+open YaraModel.Gen.SizedStr in
+/-- the string primitives of the VM model (the C expressions of exec.c's string opcodes, as regenerated into Gen.VmOps) are
+    the regenerated sizedstr.c functions — so `compile_correct` speaks about them.  Ordering comparisons: for bytes < 0x80. -/
+theorem vm_string_prims_are_sizedstr (a b : Int) :
+    primPure "ss_contains(r1.ss,r2.ss)" [a, b] = C.b2i (ss_contains (decSS a) (decSS b)) ∧
+    primPure "ss_icontains(r1.ss,r2.ss)" [a, b] = C.b2i (ss_icontains (decSS a) (decSS b)) ∧
+    primPure "ss_startswith(r1.ss,r2.ss)" [a, b] = C.b2i (ss_startswith (decSS a) (decSS b)) ∧
+    primPure "ss_istartswith(r1.ss,r2.ss)" [a, b] = C.b2i (ss_istartswith (decSS a) (decSS b)) ∧
+    primPure "ss_endswith(r1.ss,r2.ss)" [a, b] = C.b2i (ss_endswith (decSS a) (decSS b)) ∧
+    primPure "ss_iendswith(r1.ss,r2.ss)" [a, b] = C.b2i (ss_iendswith (decSS a) (decSS b)) ∧
+    primPure "(ss_icompare(r1.ss,r2.ss)==0)" [a, b] = C.b2i (decide (ss_icompare (decSS a) (decSS b) = 0)) ∧
+    primPure "(ss_compare(r1.ss,r2.ss)==0)" [a, b] = C.b2i (decide (ss_compare (decSS a) (decSS b) = 0)) ∧
+    primPure "(ss_compare(r1.ss,r2.ss)!=0)" [a, b] = C.b2i (decide (ss_compare (decSS a) (decSS b) ≠ 0)) ∧
+    ((∀ x, x ∈ decSS a → x < 128) → (∀ x, x ∈ decSS b → x < 128) →
+      primPure "(ss_compare(r1.ss,r2.ss)<0)" [a, b] = C.b2i (decide (ss_compare (decSS a) (decSS b) < 0)) ∧
+      primPure "(ss_compare(r1.ss,r2.ss)<=0)" [a, b] = C.b2i (decide (ss_compare (decSS a) (decSS b) ≤ 0)) ∧
+      primPure "(ss_compare(r1.ss,r2.ss)>0)" [a, b] = C.b2i (decide (ss_compare (decSS a) (decSS b) > 0)) ∧
+      primPure "(ss_compare(r1.ss,r2.ss)>=0)" [a, b] = C.b2i (decide (ss_compare (decSS a) (decSS b) ≥ 0))) := by
+  obtain ⟨h1, h2, h3, h4, h5, h6, h7, h8, h9⟩ := string_ops_model_is_spec (decSS a) (decSS b)
+  refine ⟨by rw [pp_contains, h1], by rw [pp_icontains, h2], by rw [pp_startswith, h3], by rw [pp_istartswith, h4],
+    by rw [pp_endswith, h5], by rw [pp_iendswith, h6], by rw [pp_iequals, h7], by rw [pp_eq, h8], by rw [pp_neq, h9], ?_⟩
+  intro ha hb
+  have h := string_order_model_is_spec_partial (decSS a) (decSS b) ha hb
+  refine ⟨by rw [pp_lt, h]; simp [cmpStr, cmpInt], by rw [pp_le, h]; simp [cmpStr, cmpInt],
+    by rw [pp_gt, h]; simp [cmpStr, cmpInt], by rw [pp_ge, h]; simp [cmpStr, cmpInt]⟩
 
 /-! ## (d) compile_correct -/
 
